@@ -540,6 +540,142 @@ fn miri_phase(seed: u64) -> (Rep, Vec<String>, Vec<String>) {
     (rep, violations, inconclusive)
 }
 
+/// Sanitizer phase (thorough tier of selected checks): the harness is rebuilt with a compiler
+/// sanitizer (nightly toolchain; ThreadSanitizer needs -Zbuild-std) and the check's quick-tier
+/// cases are run again at a different seed in 16 sanitized shard processes. The behavioural
+/// oracles run as usual (their findings count like native ones - the slowdown changes the
+/// interleavings); every sanitizer report whose stack touches nomt code is a violation.
+/// A build failure or a time-out is inconclusive.
+fn sanitizer_phase(kind: &str, id: &str, seed: u64, scratch: &Path) -> (Rep, Vec<String>, Vec<String>) {
+    let mut rep = Rep::default();
+    let mut violations = Vec::new();
+    let mut inconclusive = Vec::new();
+    let harness = Path::new(VERIF_DIR).join("harness");
+    let target_dir = harness.join(format!("target-{kind}"));
+    let flags = format!("-Zsanitizer={kind} -Cforce-frame-pointers=yes");
+    let mut args = vec!["+nightly", "build", "--release", "--offline", "--target", "x86_64-unknown-linux-gnu", "--target-dir", target_dir.to_str().unwrap()];
+    if kind == "thread" {
+        args.push("-Zbuild-std");
+    }
+    let build = Command::new("cargo")
+        .args(&args)
+        .current_dir(&harness)
+        .env("RUSTFLAGS", &flags)
+        .env("CARGO_NET_OFFLINE", "true")
+        .stdout(Stdio::null())
+        .stderr(Stdio::piped())
+        .output();
+    match build {
+        Ok(o) if o.status.success() => {}
+        Ok(o) => {
+            inconclusive.push(format!("{kind}-sanitizer build failed: {}", String::from_utf8_lossy(&o.stderr).lines().rev().take(3).collect::<Vec<_>>().join(" / ")));
+            return (rep, violations, inconclusive);
+        }
+        Err(e) => {
+            inconclusive.push(format!("{kind}-sanitizer build not possible: {e}"));
+            return (rep, violations, inconclusive);
+        }
+    }
+    let exe = target_dir.join("x86_64-unknown-linux-gnu/release/nv");
+    let dir = scratch.join(format!("san-{kind}"));
+    let _ = std::fs::create_dir_all(&dir);
+    let log_prefix = dir.join("report");
+    let (opt_var, opts) = if kind == "thread" {
+        ("TSAN_OPTIONS", format!("halt_on_error=0 exitcode=0 report_signal_unsafe=0 second_deadlock_stack=1 log_path={}", log_prefix.display()))
+    } else {
+        ("ASAN_OPTIONS", format!("detect_leaks=0 abort_on_error=1 log_path={}", log_prefix.display()))
+    };
+    let seed2 = derive(seed, &[tag("sanitizer"), tag(kind)]);
+    let nshards = 16u64;
+    let budget = 420u64;
+    let children: Vec<_> = (0..nshards)
+        .map(|sh| {
+            let out = dir.join(format!("shard{sh}.jsonl"));
+            let c = Command::new(&exe)
+                .args([
+                    "child",
+                    id,
+                    "quick",
+                    &seed2.to_string(),
+                    &sh.to_string(),
+                    &nshards.to_string(),
+                    out.to_str().unwrap(),
+                    dir.join(format!("s{sh}")).to_str().unwrap(),
+                    "--budget",
+                    &budget.to_string(),
+                ])
+                .env(opt_var, &opts)
+                .stdout(Stdio::null())
+                .stderr(Stdio::null())
+                .spawn();
+            (sh, out, c)
+        })
+        .collect();
+    let mut cases = 0;
+    for (sh, out, c) in children {
+        match c {
+            Ok(mut c) => {
+                let (status, hang) = wait_watch(&mut c, Duration::from_secs(budget * 3), Some(&out), Duration::from_secs(900));
+                let (r, n, started, done) = parse_out(&out);
+                rep.merge(r);
+                cases += n;
+                if let Some(h) = hang {
+                    inconclusive.push(format!("{kind}-sanitizer shard {sh}: {h}"));
+                } else if !(status.map_or(false, |s| s.success()) && done) {
+                    // with ASan a report aborts the process; the report itself is picked up below
+                    if kind != "address" {
+                        inconclusive.push(format!("{kind}-sanitizer shard {sh} ended with {status:?} in case {started:?}"));
+                    }
+                }
+            }
+            Err(e) => inconclusive.push(format!("{kind}-sanitizer shard {sh}: {e}")),
+        }
+    }
+    rep.feat(&format!("{kind}_sanitizer_cases"), cases);
+    // sanitizer reports
+    let mut seen = std::collections::BTreeSet::new();
+    let mut n_reports = 0u64;
+    if let Ok(rd) = std::fs::read_dir(&dir) {
+        for e in rd.flatten() {
+            let name = e.file_name().to_string_lossy().to_string();
+            if !name.starts_with("report.") {
+                continue;
+            }
+            let Ok(text) = std::fs::read_to_string(e.path()) else { continue };
+            for block in text.split("==================").filter(|b| b.contains("Sanitizer")) {
+                let Some(head) = block.lines().find(|l| l.contains("WARNING: ThreadSanitizer") || l.contains("ERROR: AddressSanitizer")) else { continue };
+                n_reports += 1;
+                let frame = block
+                    .lines()
+                    .filter(|l| l.trim_start().starts_with('#'))
+                    .find(|l| l.contains("nomt::") || l.contains("nomt_core::") || l.contains("/repo/"))
+                    .map(|l| {
+                        let t = l.trim();
+                        // "#3 nomt::foo::bar /path:line:col (nv+0x..)" -> symbol only
+                        let tok: Vec<&str> = t.split_whitespace().collect();
+                        if tok.len() > 3 && tok[1].starts_with("0x") && tok[2] == "in" {
+                            tok[3].to_string()
+                        } else {
+                            tok.get(1).copied().unwrap_or("?").to_string()
+                        }
+                    });
+                let Some(frame) = frame else {
+                    rep.feat(&format!("{kind}_sanitizer_reports_outside_nomt"), 1);
+                    continue;
+                };
+                let what = head.split("Sanitizer:").nth(1).unwrap_or("").trim();
+                let what = what.split(" (pid").next().unwrap_or("").split(" on address").next().unwrap_or("").trim().to_string();
+                if seen.insert((what.clone(), frame.clone())) {
+                    let excerpt: Vec<&str> = block.lines().filter(|l| !l.trim().is_empty()).take(14).collect();
+                    violations.push(format!("SANITIZER {kind}: {what} in {frame} :: {}", excerpt.join(" | ")));
+                }
+            }
+        }
+    }
+    rep.feat(&format!("{kind}_sanitizer_reports"), n_reports);
+    (rep, violations, inconclusive)
+}
+
 #[derive(Clone)]
 struct Known {
     property: String,
@@ -590,7 +726,9 @@ pub fn cmd_check(args: &[String]) -> ExitCode {
     let nshards = std::thread::available_parallelism().map(|n| n.get() as u64).unwrap_or(8).min(16).min(ncases.max(1));
     let hard_timeout = budget * 4 + 600;
     println!("nv check {id} tier={tier} seed={seed} cases<={ncases} shards={nshards} budget={budget}s");
-    let handles: Vec<_> = (0..nshards)
+    // NV_ONLY_SANITIZER (debug aid): skip the native phase of a thorough run
+    let native_shards = if tier == "thorough" && std::env::var("NV_ONLY_SANITIZER").is_ok() { 0 } else { nshards };
+    let handles: Vec<_> = (0..native_shards)
         .map(|s| {
             let id = id.clone();
             let scratch = scratch.clone();
@@ -631,6 +769,21 @@ pub fn cmd_check(args: &[String]) -> ExitCode {
         }
         inconclusive.extend(minc);
     }
+    if tier == "thorough" && std::env::var("NV_NO_SANITIZER").is_err() {
+        let kinds: &[&str] = match id.as_str() {
+            "C13" | "C15" => &["thread"],
+            "C01" => &["address"],
+            _ => &[],
+        };
+        for kind in kinds {
+            let (srep, sviol, sinc) = sanitizer_phase(kind, &id, seed, &scratch);
+            rep.merge(srep);
+            for v in sviol {
+                crashed.push((0, v));
+            }
+            inconclusive.extend(sinc);
+        }
+    }
     inconclusive.extend(rep.inconclusive.iter().cloned());
     let _ = std::fs::remove_dir_all(&scratch);
     let _ = std::fs::remove_dir_all(format!("/tmp/nv-ext4.{pid}"));
@@ -644,6 +797,8 @@ pub fn cmd_check(args: &[String]) -> ExitCode {
                 "confirmed-hang".into()
             } else if what.starts_with("MIRI") {
                 "miri-undefined-behaviour".into()
+            } else if what.starts_with("SANITIZER") {
+                format!("sanitizer:{}", what.split(" :: ").next().unwrap_or("").trim_start_matches("SANITIZER ").chars().take(120).collect::<String>())
             } else {
                 "process-died".into()
             },
